@@ -37,6 +37,7 @@ import (
 	"github.com/hydraide/hydraide/app/core/settings"
 	"github.com/hydraide/hydraide/app/name"
 	"github.com/hydraide/hydraide/app/server/gateway"
+	"github.com/hydraide/hydraide/app/server/telemetry"
 	hydrapb "github.com/hydraide/hydraide/sdk/go/hydraidego/v3/hydraidepbgo"
 	"github.com/vmihailenco/msgpack/v5"
 	"google.golang.org/grpc/metadata"
@@ -212,11 +213,37 @@ func c26SeedSwamp(st *c26State, nm string) error {
 	return nil
 }
 
+// options of the current case (`case N RPC eng=v1|v2 tel=0|1`)
+var c26Eng, c26Tel = "v2", false
+
+func c26CaseOpts(f []string) {
+	c26Eng, c26Tel = "v2", false
+	for _, t := range f {
+		switch t {
+		case "eng=v1":
+			c26Eng = "v1"
+		case "tel=1":
+			c26Tel = true
+		}
+	}
+}
+
 func c26Start() (*c26State, error) {
 	slog.SetDefault(slog.New(c26Log{n: &c26Panics}))
 	rig, err := NewRig(3, 2000, 3600, 0)
 	if err != nil {
 		return nil, err
+	}
+	if c26Eng == "v2" {
+		if err := rig.Settings.SetEngine(settings.EngineV2); err != nil {
+			return nil, err
+		}
+	}
+	if c26Tel {
+		col := telemetry.New(telemetry.Config{Capacity: 64})
+		col.Record(telemetry.Event{ID: "e", Method: "Get", SwampName: "c26/seed/main", Success: false, ErrorCode: "Internal", ErrorMsg: "x"})
+		col.Record(telemetry.Event{Method: "Set", SwampName: "c26/seed/main", Success: true})
+		rig.GW.TelemetryCollector = col
 	}
 	rig.Settings.RegisterPattern(name.New().Sanctuary("c26").Realm("*").Swamp("*"), false, 3600,
 		&settings.FileSystemSettings{WriteIntervalSec: 1, MaxFileSizeByte: 8192})
@@ -457,6 +484,10 @@ func c26Call(st *c26State, rpc c26Rpc, msg proto.Message) (class string, recover
 	if escaped {
 		return "panic", recovered
 	}
+	c26LastResp = reflect.Value{}
+	if rpc.kind == "unary" {
+		c26LastResp = out[0]
+	}
 	errV := out[len(out)-1]
 	if !errV.IsNil() {
 		err := errV.Interface().(error)
@@ -482,6 +513,54 @@ func c26NoFields(t reflect.Type) bool {
 	m := reflect.New(t.Elem()).Interface().(proto.Message)
 	return m.ProtoReflect().Descriptor().Fields().Len() == 0
 }
+
+// keys the response acknowledges as written, per swamp (Set: NEW / UPDATED; PatchTreasures: CREATED / PATCHED;
+// Increment* and Uint32SlicePush: the request's keys when the call succeeded)
+func c26Acked(rpc c26Rpc, req proto.Message, resp reflect.Value) map[string][]string {
+	out := map[string][]string{}
+	if !resp.IsValid() {
+		return out
+	}
+	if resp.IsNil() && rpc.name != "Uint32SlicePush" {
+		return out
+	}
+	switch r := resp.Interface().(type) {
+	case *hydrapb.SetResponse:
+		for _, sw := range r.GetSwamps() {
+			for _, ks := range sw.GetKeysAndStatuses() {
+				if ks.GetStatus() == hydrapb.Status_NEW || ks.GetStatus() == hydrapb.Status_UPDATED {
+					out[sw.GetSwampName()] = append(out[sw.GetSwampName()], ks.GetKey())
+				}
+			}
+		}
+	case *hydrapb.PatchTreasuresResponse:
+		q := req.(*hydrapb.PatchTreasuresRequest)
+		for _, pr := range r.GetResults() {
+			if pr.GetStatus() == hydrapb.PatchResult_CREATED || pr.GetStatus() == hydrapb.PatchResult_PATCHED {
+				out[q.GetSwampName()] = append(out[q.GetSwampName()], pr.GetKey())
+			}
+		}
+	case *hydrapb.AddToUint32SlicePushResponse:
+		q := req.(*hydrapb.AddToUint32SlicePushRequest)
+		for _, pr := range q.GetKeySlicePairs() {
+			if len(pr.GetValues()) > 0 {
+				out[q.GetSwampName()] = append(out[q.GetSwampName()], pr.GetKey())
+			}
+		}
+	default:
+		if strings.HasPrefix(rpc.name, "Increment") {
+			m := req.ProtoReflect()
+			fds := m.Descriptor().Fields()
+			inc := resp.Elem().FieldByName("IsIncremented")
+			if inc.IsValid() && inc.Bool() {
+				out[m.Get(fds.ByName("SwampName")).String()] = []string{m.Get(fds.ByName("Key")).String()}
+			}
+		}
+	}
+	return out
+}
+
+var c26LastResp reflect.Value
 
 func c26Do(st *c26State, rpc c26Rpc, msg proto.Message) string {
 	touched := map[string]bool{}
@@ -519,7 +598,13 @@ func c26Do(st *c26State, rpc c26Rpc, msg proto.Message) string {
 		}
 	}
 	store := "same"
-	corrupt := false
+	corrupt, lost := false, false
+	acked := map[string][]string{}
+	for sw, keys := range c26Acked(rpc, msg, c26LastResp) {
+		if n := c26Norm(sw); n != "" {
+			acked[n] = append(acked[n], keys...)
+		}
+	}
 	mentioned := map[string]bool{}
 	c26Strings(msg.ProtoReflect(), mentioned)
 	if closeRes == "ok" {
@@ -527,6 +612,15 @@ func c26Do(st *c26State, rpc c26Rpc, msg proto.Message) string {
 			want, have := st.base[n], c26Snapshot(st, n)
 			if want == "" {
 				want = "absent"
+			}
+			// a key the response reported as written must come back from disk
+			if class == "resp" {
+				rows := c26Rows(have)
+				for _, k := range acked[n] {
+					if _, ok := rows[k]; !ok {
+						lost = true
+					}
+				}
 			}
 			if want != have {
 				store = "changed"
@@ -539,6 +633,9 @@ func c26Do(st *c26State, rpc c26Rpc, msg proto.Message) string {
 	}
 	if corrupt {
 		store = "corrupt"
+	}
+	if lost {
+		store = "lostack"
 	}
 	return fmt.Sprintf("%s p=%d lock=%d vig=%d store=%s close=%s", class, rec, lock, vig, store, closeRes)
 }
@@ -624,6 +721,7 @@ func c26Run(in *bufio.Scanner, w *bufio.Writer) {
 		switch {
 		case f[0] == "case":
 			stop()
+			c26CaseOpts(f)
 			var err error
 			st, err = c26Start()
 			if err != nil {
@@ -682,7 +780,11 @@ func c26Child(line string) string {
 		return "child-error " + err.Error()
 	}
 	cmd := exec.Command(exe, "run", "C26child")
-	cmd.Stdin = strings.NewReader(line + "\n")
+	tel := "tel=0"
+	if c26Tel {
+		tel = "tel=1"
+	}
+	cmd.Stdin = strings.NewReader("opts eng=" + c26Eng + " " + tel + "\n" + line + "\n")
 	var out, errb bytes.Buffer
 	cmd.Stdout, cmd.Stderr = &out, &errb
 	done := make(chan error, 1)
@@ -710,6 +812,10 @@ func c26RunChild(in *bufio.Scanner, w *bufio.Writer) {
 	os.Stdout = os.Stderr
 	for in.Scan() {
 		f := strings.Split(in.Text(), " ")
+		if f[0] == "opts" {
+			c26CaseOpts(f)
+			continue
+		}
 		if f[0] != "req" || len(f) < 4 {
 			continue
 		}
@@ -841,11 +947,13 @@ var c26NameMut = []string{"", "ab", "c26/seed", "a/b", "c26/seed/main/extra", "/
 type c26Mut struct {
 	msg   proto.Message
 	label string
+	kind  string
 }
 
 type c26Op struct {
 	path  []int
 	label string
+	kind  string // "", "enum", "nilmsg", "emptymsg", "oversize": always run in the quick tier
 	f     func(m protoreflect.Message)
 }
 
@@ -879,10 +987,10 @@ func c26ApplyTo(c proto.Message, op c26Op) (ok bool) {
 func c26Mutations(base proto.Message, rng *rand.Rand, doubles int) []c26Mut {
 	var out []c26Mut
 	var ops []c26Op
-	curLabel := ""
+	curLabel, curKind := "", ""
 	var walk func(path []int, m protoreflect.Message, depth int)
 	apply := func(path []int, f func(m protoreflect.Message)) {
-		ops = append(ops, c26Op{append([]int{}, path...), curLabel, f})
+		ops = append(ops, c26Op{append([]int{}, path...), curLabel, curKind, f})
 	}
 	long := strings.Repeat("k", 70000)
 	walk = func(path []int, m protoreflect.Message, depth int) {
@@ -893,7 +1001,7 @@ func c26Mutations(base proto.Message, rng *rand.Rand, doubles int) []c26Mut {
 			if fd.Name() == "IslandID" {
 				continue
 			}
-			curLabel = string(fd.Name())
+			curLabel, curKind = string(fd.Name()), ""
 			set := func(v protoreflect.Value) {
 				apply(path, func(mm protoreflect.Message) { mm.Set(mm.Descriptor().Fields().Get(fi), v) })
 			}
@@ -914,6 +1022,17 @@ func c26Mutations(base proto.Message, rng *rand.Rand, doubles int) []c26Mut {
 				}
 			case fd.IsList() && fd.Kind() == protoreflect.MessageKind:
 				clear()
+				curKind = "emptymsg"
+				apply(path, func(mm protoreflect.Message) { // one element, all fields absent
+					f := mm.Descriptor().Fields().Get(fi)
+					mm.Clear(f)
+					mm.Mutable(f).List().Append(mm.Mutable(f).List().NewElement())
+				})
+				apply(path, func(mm protoreflect.Message) { // an empty element after the valid ones
+					f := mm.Descriptor().Fields().Get(fi)
+					mm.Mutable(f).List().Append(mm.Mutable(f).List().NewElement())
+				})
+				curKind = ""
 				l := m.Get(fd).List()
 				if l.Len() > 0 {
 					if depth < 3 {
@@ -939,7 +1058,14 @@ func c26Mutations(base proto.Message, rng *rand.Rand, doubles int) []c26Mut {
 			case fd.IsList():
 				clear()
 			case fd.Kind() == protoreflect.MessageKind:
+				curKind = "nilmsg"
 				clear()
+				curKind = "emptymsg"
+				apply(path, func(mm protoreflect.Message) { // present, but every field absent
+					f := mm.Descriptor().Fields().Get(fi)
+					mm.Set(f, protoreflect.ValueOfMessage(mm.NewField(f).Message()))
+				})
+				curKind = ""
 				if m.Has(fd) && depth < 3 {
 					walk(append(append([]int{}, path...), i, 0), m.Get(fd).Message(), depth+1)
 					curLabel = string(fd.Name())
@@ -969,14 +1095,26 @@ func c26Mutations(base proto.Message, rng *rand.Rand, doubles int) []c26Mut {
 					}
 					set(protoreflect.ValueOfString("c26/seed/" + strings.Repeat("n", 300)))
 				} else {
-					for _, v := range []string{"", "nokey", "s1", "sl", "by", long} {
+					for _, v := range []string{"", "nokey", "s1", "sl", "by"} {
 						set(protoreflect.ValueOfString(v))
 					}
+					if fd.Name() == "Key" {
+						curKind = "oversize"
+						set(protoreflect.ValueOfString(strings.Repeat("k", 65535))) // largest key the V2 writer takes
+						set(protoreflect.ValueOfString(strings.Repeat("k", 65536)))
+					}
+					set(protoreflect.ValueOfString(long))
+					curKind = ""
 				}
 			case fd.Kind() == protoreflect.EnumKind:
-				for _, v := range []int32{0, 1, int32(fd.Enum().Values().Len() - 1), 99, -1} {
+				for _, v := range []int32{0, 1, int32(fd.Enum().Values().Len() - 1)} {
 					set(protoreflect.ValueOfEnum(protoreflect.EnumNumber(v)))
 				}
+				curKind = "enum" // out of range: one past the last value, far out, negative
+				for _, v := range []int32{int32(fd.Enum().Values().Len()), 99, -1} {
+					set(protoreflect.ValueOfEnum(protoreflect.EnumNumber(v)))
+				}
+				curKind = ""
 			case fd.Kind() == protoreflect.BoolKind:
 				set(protoreflect.ValueOfBool(!m.Get(fd).Bool()))
 			case fd.Kind() == protoreflect.Int32Kind || fd.Kind() == protoreflect.Sint32Kind:
@@ -1014,7 +1152,7 @@ func c26Mutations(base proto.Message, rng *rand.Rand, doubles int) []c26Mut {
 	for _, op := range ops {
 		c := proto.Clone(base)
 		if c26ApplyTo(c, op) {
-			out = append(out, c26Mut{c, op.label})
+			out = append(out, c26Mut{c, op.label, op.kind})
 		}
 	}
 	// pairs of mutations of different fields (thorough tier)
@@ -1025,7 +1163,7 @@ func c26Mutations(base proto.Message, rng *rand.Rand, doubles int) []c26Mut {
 		}
 		c := proto.Clone(base)
 		if c26ApplyTo(c, a) && c26ApplyTo(c, b) {
-			out = append(out, c26Mut{c, a.label + "+" + b.label})
+			out = append(out, c26Mut{c, a.label + "+" + b.label, ""})
 		}
 	}
 	return out
@@ -1059,20 +1197,20 @@ func c26Directed(rpc c26Rpc) []c26Mut {
 	const S = "c26/seed/main"
 	switch rpc.name {
 	case "GetByIndex":
-		return []c26Mut{{&hydrapb.GetByIndexRequest{IslandID: c26Island, SwampName: S, From: -1, Limit: 2}, "From"}}
+		return []c26Mut{{&hydrapb.GetByIndexRequest{IslandID: c26Island, SwampName: S, From: -1, Limit: 2}, "From", "directed"}}
 	case "GetByIndexStream":
-		return []c26Mut{{&hydrapb.GetByIndexStreamRequest{IslandID: c26Island, SwampName: S, From: -1, Limit: 2}, "From"}}
+		return []c26Mut{{&hydrapb.GetByIndexStreamRequest{IslandID: c26Island, SwampName: S, From: -1, Limit: 2}, "From", "directed"}}
 	case "GetByIndexStreamFromMany":
-		return []c26Mut{{&hydrapb.GetByIndexStreamFromManyRequest{Queries: []*hydrapb.SwampQuery{{IslandID: c26Island, SwampName: S, From: -1, Limit: 2}}}, "From"}}
+		return []c26Mut{{&hydrapb.GetByIndexStreamFromManyRequest{Queries: []*hydrapb.SwampQuery{{IslandID: c26Island, SwampName: S, From: -1, Limit: 2}}}, "From", "directed"}}
 	case "Uint32SliceDelete":
 		return []c26Mut{
-			{&hydrapb.Uint32SliceDeleteRequest{IslandID: c26Island, SwampName: S, KeySlicePairs: []*hydrapb.KeySlicePair{{Key: "s1", Values: []uint32{1}}}}, "Key"},
-			{&hydrapb.Uint32SliceDeleteRequest{IslandID: c26Island, SwampName: S, KeySlicePairs: []*hydrapb.KeySlicePair{{Key: "sl", Values: []uint32{1, 2, 3}}}}, "Values"},
+			{&hydrapb.Uint32SliceDeleteRequest{IslandID: c26Island, SwampName: S, KeySlicePairs: []*hydrapb.KeySlicePair{{Key: "s1", Values: []uint32{1}}}}, "Key", "directed"},
+			{&hydrapb.Uint32SliceDeleteRequest{IslandID: c26Island, SwampName: S, KeySlicePairs: []*hydrapb.KeySlicePair{{Key: "sl", Values: []uint32{1, 2, 3}}}}, "Values", "directed"},
 		}
 	case "Uint32SliceSize":
-		return []c26Mut{{&hydrapb.Uint32SliceSizeRequest{IslandID: c26Island, SwampName: "c26/none/missing", Key: "sl"}, "SwampName"}}
+		return []c26Mut{{&hydrapb.Uint32SliceSizeRequest{IslandID: c26Island, SwampName: "c26/none/missing", Key: "sl"}, "SwampName", "directed"}}
 	case "Uint32SliceIsValueExist":
-		return []c26Mut{{&hydrapb.Uint32SliceIsValueExistRequest{IslandID: c26Island, SwampName: "c26/none/missing", Key: "sl", Value: 2}, "SwampName"}}
+		return []c26Mut{{&hydrapb.Uint32SliceIsValueExistRequest{IslandID: c26Island, SwampName: "c26/none/missing", Key: "sl", Value: 2}, "SwampName", "directed"}}
 	}
 	return nil
 }
@@ -1192,8 +1330,8 @@ func c26EntryShape(m protoreflect.Message, mode string) string {
 			li = m.Get(fd).String() == ""
 		}
 	}
-	return fmt.Sprintf("p%d,ne%s,ep%s,x%s,k%s,kv%s,iz%s,oe%s,mn%s,pe%s,cap%s,lk%s,li%s", len(parts), c26B(nm == ""), c26B(ep), c26B(exist), keys,
-		c26B(kv), c26B(iz), c26B(oe), c26B(mn), c26B(pe), cp, c26B(lk), c26B(li))
+	return fmt.Sprintf("p%d,ne%s,ep%s,x%s,k%s,kv%s,iz%s,oe%s,mn%s,pe%s,cap%s,lk%s,li%s,t%s", len(parts), c26B(nm == ""), c26B(ep), c26B(exist), keys,
+		c26B(kv), c26B(iz), c26B(oe), c26B(mn), c26B(pe), cp, c26B(lk), c26B(li), c26B(!c26GenTel))
 }
 
 func c26Shape(msg proto.Message, mode string) string {
@@ -1246,62 +1384,101 @@ func c26Emit(w *bufio.Writer, rpc c26Rpc, msg proto.Message, mode string, label 
 	fmt.Fprintf(w, "req %s %s %s | %s | m=%s\n", rpc.name, mode, hex.EncodeToString(b), c26Shape(dec, mode), label)
 }
 
+var c26GenTel = false // telemetry collector configured in the case being generated
+
+func c26WritesKeys(rpc string) bool {
+	return c26Keyed(rpc)
+}
+
 func c26Gen(rng *rand.Rand, tier string, w *bufio.Writer) {
-	per, doubles := 32, 0
+	per, doubles := 30, 0
 	if tier == "thorough" {
 		per, doubles = 2000, 1200
 	}
 	only := os.Getenv("C26_ONLY")
-	for ci, rpc := range c26Rpcs() {
+	ci := 0
+	for _, rpc := range c26Rpcs() {
 		if only != "" && only != rpc.name {
 			continue
 		}
-		fmt.Fprintf(w, "case %d %s\n", ci, rpc.name)
-		base := c26Base(rpc)
-		c26Emit(w, rpc, base, "w", "base")
-		for _, d := range c26Directed(rpc) {
-			c26Emit(w, rpc, d.msg, "w", d.label)
+		// every RPC on the current engine (V2); RPCs that write by key also on the legacy engine;
+		// the telemetry RPCs also with a collector configured
+		variants := []string{"eng=v2 tel=0"}
+		if c26WritesKeys(rpc.name) {
+			variants = append(variants, "eng=v1 tel=0")
 		}
-		muts := c26Mutations(base, rng, doubles)
-		// name / key-list mutations first (the anticipated defects), the rest sampled
-		var first, rest []c26Mut
-		for _, m := range muts {
-			s := c26Shape(m.msg, "w")
-			if !strings.Contains(s, "p3,ne0,ep0") || strings.Contains(s, "kN") || strings.Contains(s, "kF") {
-				first = append(first, m)
-			} else {
-				rest = append(rest, m)
-			}
+		if strings.Contains(rpc.name, "Telemetry") || rpc.name == "GetErrorDetails" {
+			variants = append(variants, "eng=v2 tel=1")
 		}
-		rng.Shuffle(len(rest), func(a, b int) { rest[a], rest[b] = rest[b], rest[a] })
-		if rpc.kind == "bidi" && tier != "thorough" {
-			// each DestroyBulk request runs in its own process
-			if len(first) > 8 {
-				first = first[:8]
+		for vi, variant := range variants {
+			c26GenTel = strings.HasSuffix(variant, "tel=1")
+			fmt.Fprintf(w, "case %d %s %s\n", ci, rpc.name, variant)
+			ci++
+			base := c26Base(rpc)
+			c26Emit(w, rpc, base, "w", "base")
+			for _, d := range c26Directed(rpc) {
+				c26Emit(w, rpc, d.msg, "w", d.label)
 			}
-			rest = rest[:min(len(rest), 3)]
-		}
-		n := 0
-		seen := map[string]bool{}
-		for _, m := range append(first, rest...) {
-			if n >= per {
-				break
+			dbl := doubles
+			if vi > 0 {
+				dbl = doubles / 4
 			}
-			b, _ := proto.MarshalOptions{Deterministic: true}.Marshal(m.msg)
-			if seen[string(b)] {
-				continue
+			muts := c26Mutations(base, rng, dbl)
+			// always: malformed names / key lists, out-of-range enums, nil and empty nested messages, oversized
+			// keys; the rest is sampled up to the tier budget
+			var first, rest []c26Mut
+			for _, m := range muts {
+				s := c26Shape(m.msg, "w")
+				if m.kind != "" || !strings.Contains(s, "p3,ne0,ep0") || strings.Contains(s, "kN") || strings.Contains(s, "kF") {
+					first = append(first, m)
+				} else {
+					rest = append(rest, m)
+				}
 			}
-			seen[string(b)] = true
-			c26Emit(w, rpc, m.msg, "w", m.label)
-			n++
-			if c26HasKeys(m.msg) && rpc.kind != "bidi" {
-				c26Emit(w, rpc, m.msg, "e", m.label)
+			if vi > 0 && tier != "thorough" {
+				// second engine / collector: the engine-dependent inputs only
+				var f2 []c26Mut
+				for _, m := range first {
+					if m.kind == "oversize" || m.kind == "emptymsg" || c26GenTel {
+						f2 = append(f2, m)
+					}
+				}
+				first, rest = f2, rest[:min(len(rest), 6)]
+			}
+			rng.Shuffle(len(rest), func(a, b int) { rest[a], rest[b] = rest[b], rest[a] })
+			if rpc.kind == "bidi" && tier != "thorough" {
+				// each DestroyBulk request runs in its own process
+				if len(first) > 8 {
+					first = first[:8]
+				}
+				rest = rest[:min(len(rest), 3)]
+			}
+			n := 0
+			seen := map[string]bool{}
+			budget := max(per, len(first)+4)
+			if rpc.kind == "bidi" && tier != "thorough" {
+				budget = per
+			}
+			for _, m := range append(first, rest...) {
+				if n >= budget {
+					break
+				}
+				b, _ := proto.MarshalOptions{Deterministic: true}.Marshal(m.msg)
+				if seen[string(b)] {
+					continue
+				}
+				seen[string(b)] = true
+				c26Emit(w, rpc, m.msg, "w", m.label)
 				n++
+				if c26HasKeys(m.msg) && rpc.kind != "bidi" {
+					c26Emit(w, rpc, m.msg, "e", m.label)
+					n++
+				}
 			}
+			// valid request again at the end: the server still works
+			c26Emit(w, rpc, base, "w", "base")
+			fmt.Fprintln(w, "end")
 		}
-		// valid request again at the end: the server still works
-		c26Emit(w, rpc, base, "w", "base")
-		fmt.Fprintln(w, "end")
 	}
 }
 
